@@ -97,7 +97,7 @@ func c14Key(ns namedStrat, extra int) string {
 }
 
 func c14Check(cc *run.Case, ns namedStrat, class string, n int) bool {
-	bars := gen.Bars(cc.R, class, n)
+	bars := c01Bars(cc.R, class, n)
 	zone := c14Zones[cc.R.Intn(len(c14Zones))]
 	snaps := inZone(reg.Snaps(bars), zone)
 	if n > 3 && cc.R.Intn(3) == 0 {
@@ -362,7 +362,10 @@ func c14(ctx *run.Ctx) {
 				continue
 			}
 			ctx.Case(fmt.Sprintf("strat/%d/n%d", si, n), func(cc *run.Case) {
-				class := []string{gen.Walk, gen.Walk2, gen.Ties, gen.Flat, gen.Plateau, gen.Degen, gen.LimitRun, gen.Dyadic, gen.Halt}[cc.R.Intn(9)]
+				class := []string{gen.Walk, gen.Walk2, gen.Ties, gen.Flat, gen.Plateau, gen.Degen, gen.LimitRun, gen.Dyadic, gen.Halt, "tiny", "huge"}[cc.R.Intn(11)]
+				if n == 2*ns.Warm+9 {
+					class = "tiny" // every strategy is reported once in a very small currency unit
+				}
 				if c14Check(cc, ns, class, n) {
 					cc.Distinct(fmt.Sprintf("%s/%d", ns.Name, n))
 				}
